@@ -69,14 +69,15 @@ func main() {
 		fmt.Printf("  (%s, %s, %d, %d, %s)%s\n", CoqString(s.dir), CoqString(s.fn), s.reads, s.writes, CoqBool(s.unguarded == 0), sep)
 	}
 	fmt.Println("].")
-	sharedState(repo)
+	vars := sharedState(repo)
+	aliasing(repo, vars)
 }
 
 // sharedState inventories the state that lives on process-wide singletons reachable from BOTH block execution and
 // read-only requests: every field of every struct type of x/evm/keeper and x/evm/precompile (the evm Keeper, the bank
 // keeper wrapper, the collections descriptors, the precompile objects built once by InitPrecompiles), and every
 // package-level `var` of the non-generated, non-test code under x/evm.
-func sharedState(repo string) {
+func sharedState(repo string) map[string]bool {
 	type field struct{ dir, st, name, typ string }
 	var fields []field
 	for _, dir := range []string{"x/evm/keeper", "x/evm/precompile"} {
@@ -163,6 +164,157 @@ func sharedState(repo string) {
 		fmt.Printf("  (%s, %s, %s)%s\n", CoqString(v.dir), CoqString(v.name), CoqString(v.typ), sep)
 	}
 	fmt.Println("].")
+	names := map[string]bool{}
+	for _, v := range vars {
+		if !strings.HasPrefix(v.dir, "x/evm/embeds") && v.dir != "x/evm/evmtest" && v.dir != "x/evm/cli" {
+			names[v.dir+"|"+v.name] = true
+		}
+	}
+	return names
+}
+
+// methods of math/big.Int (and uint256.Int) that overwrite their receiver
+var bigMutators = map[string]bool{"Add": true, "Sub": true, "Mul": true, "Div": true, "Quo": true, "Rem": true, "Mod": true, "Neg": true,
+	"Exp": true, "Lsh": true, "Rsh": true, "And": true, "Or": true, "Xor": true, "Not": true, "Abs": true, "Sqrt": true,
+	"Set": true, "SetUint64": true, "SetInt64": true, "SetBytes": true, "SetString": true, "SetBit": true}
+
+// freshValue: the expression certainly denotes a newly allocated number (new(big.Int), big.NewInt(..), or a method chain on one)
+func freshValue(e ast.Expr) bool {
+	switch x := e.(type) {
+	case *ast.CallExpr:
+		f := Nospace(x.Fun)
+		if f == "new" || f == "big.NewInt" || f == "uint256.NewInt" {
+			return true
+		}
+		if sel, ok := x.Fun.(*ast.SelectorExpr); ok {
+			return freshValue(sel.X)
+		}
+	case *ast.ParenExpr:
+		return freshValue(x.X)
+	}
+	return false
+}
+
+// aliasing prints two inventories over the non-test, non-generated code of x/evm, app/evmante and eth:
+//
+//	inplace_sites  calls `x.Op(x, …)` / `x.SetXxx(v)` of a receiver-overwriting big-number method whose receiver x is
+//	               NOT certainly fresh (a parameter, a field, a package variable, a value returned by another function):
+//	               the arithmetic that can change a value somebody else still holds
+//	var_aliases    `return <package-level variable of x/evm>`: functions that hand out the shared object itself
+func aliasing(repo string, pkgVars map[string]bool) {
+	type site struct{ dir, fn, expr string }
+	var inplace, aliases []site
+	for _, top := range []string{"x/evm", "app/evmante", "eth"} {
+		filepath.WalkDir(filepath.Join(repo, top), func(p string, d os.DirEntry, err error) error {
+			if err != nil || !d.IsDir() {
+				return nil
+			}
+			dir := strings.TrimPrefix(p, repo+"/")
+			if strings.HasPrefix(dir, "x/evm/embeds") || dir == "x/evm/evmtest" || dir == "x/evm/cli" {
+				return nil
+			}
+			for _, fl := range ParseDir(p) {
+				if strings.Contains(filepath.Base(fl.Path), ".pb.") {
+					continue
+				}
+				for _, decl := range fl.F.Decls {
+					fd, ok := decl.(*ast.FuncDecl)
+					if !ok || fd.Body == nil {
+						continue
+					}
+					freshLocal, notFresh := map[string]bool{}, map[string]bool{}
+					ast.Inspect(fd.Body, func(n ast.Node) bool {
+						switch a := n.(type) {
+						case *ast.AssignStmt:
+							for i, l := range a.Lhs {
+								if id, ok := l.(*ast.Ident); ok {
+									if len(a.Rhs) == len(a.Lhs) && freshValue(a.Rhs[i]) {
+										freshLocal[id.Name] = true
+									} else {
+										notFresh[id.Name] = true
+									}
+								}
+							}
+						case *ast.ValueSpec:
+							for i, id := range a.Names {
+								if i < len(a.Values) && freshValue(a.Values[i]) {
+									freshLocal[id.Name] = true
+								} else {
+									notFresh[id.Name] = true
+								}
+							}
+						}
+						return true
+					})
+					ast.Inspect(fd.Body, func(n ast.Node) bool {
+						switch x := n.(type) {
+						case *ast.CallExpr:
+							sel, ok := x.Fun.(*ast.SelectorExpr)
+							if !ok || !bigMutators[sel.Sel.Name] || len(x.Args) == 0 {
+								return true
+							}
+							recv := Nospace(sel.X)
+							isSet := strings.HasPrefix(sel.Sel.Name, "Set")
+							same := false
+							for _, a := range x.Args {
+								if Nospace(a) == recv {
+									same = true
+								}
+							}
+							if !same && !(isSet && (len(x.Args) == 1 || sel.Sel.Name == "SetString" || sel.Sel.Name == "SetBit")) {
+								return true
+							}
+							if freshValue(sel.X) {
+								return true
+							}
+							if id, ok := sel.X.(*ast.Ident); ok && freshLocal[id.Name] && !notFresh[id.Name] {
+								return true
+							}
+							inplace = append(inplace, site{dir, fd.Name.Name, Nospace(x)})
+						case *ast.ReturnStmt:
+							for _, r := range x.Results {
+								name := ""
+								switch e := r.(type) {
+								case *ast.Ident:
+									if pkgVars[dir+"|"+e.Name] {
+										name = e.Name
+									}
+								case *ast.SelectorExpr:
+									if id, ok := e.X.(*ast.Ident); ok {
+										for _, vd := range []string{"x/evm", "x/evm/precompile", "x/evm/statedb", "x/evm/keeper"} {
+											if filepath.Base(vd) == id.Name && pkgVars[vd+"|"+e.Sel.Name] {
+												name = id.Name + "." + e.Sel.Name
+											}
+										}
+									}
+								}
+								if name != "" && !strings.HasPrefix(strings.TrimPrefix(name, "evm."), "Err") {
+									aliases = append(aliases, site{dir, fd.Name.Name, name})
+								}
+							}
+						}
+						return true
+					})
+				}
+			}
+			return nil
+		})
+	}
+	pr := func(title, name string, l []site) {
+		sort.Slice(l, func(i, j int) bool { return l[i].dir+"|"+l[i].fn+"|"+l[i].expr < l[j].dir+"|"+l[j].fn+"|"+l[j].expr })
+		fmt.Println("(* " + title + ": (directory, function, expression) *)")
+		fmt.Printf("Definition %s : list (string * string * string) := [\n", name)
+		for i, s := range l {
+			sep := ";"
+			if i == len(l)-1 {
+				sep = ""
+			}
+			fmt.Printf("  (%s, %s, %s)%s\n", CoqString(s.dir), CoqString(s.fn), CoqString(s.expr), sep)
+		}
+		fmt.Println("].")
+	}
+	pr("receiver-overwriting big-number arithmetic on a receiver that is not certainly fresh", "inplace_sites", inplace)
+	pr("functions returning a package-level variable of x/evm itself (not a copy)", "var_aliases", aliases)
 }
 
 // receiver name when fd is a method of NibiruBankKeeper
